@@ -1,2 +1,148 @@
-/- C04 driver (stub until the model exists) -/
-def main : IO Unit := pure ()
+/- C04 driver: op lines in, observable lines out (same format as props/C04/harness.cpp).
+   After every op: isEnabled() of every event and the field-wise disposition of the four signals. -/
+import TboxModel.Util
+import TboxModel.C04.Model
+open Tbox.Util Tbox.C04
+
+def nSig : Nat := 4
+def nLoop : Nat := 3
+
+def showDisp (d : Disp) : String :=
+  let k := match d.kind with
+    | .dfl => "d" | .ign => "i" | .handler h => "h" ++ toString h | .tbox => "T"
+  k ++ ":" ++ (if d.siginfo then "1" else "0") ++ ":" ++ toString d.flags ++ ":" ++ toString d.mask
+
+def bitsOf (s : State) : String :=
+  if s.nEv = 0 then "-" else
+  String.ofList ((List.range s.nEv).map fun e =>
+    let v := s.evs e
+    if !v.alive then 'x' else if v.enabled then '1' else '0')
+
+def showState (s : State) : String :=
+  "en=" ++ bitsOf s ++ " disp=" ++ "|".intercalate ((List.range nSig).map fun g => showDisp (s.os g))
+
+def idx? (w : String) (bound : Nat) : Option Nat := do
+  let i ← w.toNat?
+  if i < bound then some i else none
+
+/-- "-" or a strictly ascending comma list of signal indices -/
+def parseSigs (w : String) : Option (List Nat) :=
+  if w == "-" then some [] else do
+    let l ← (w.splitOn ",").mapM (fun x => idx? x nSig)
+    if l.Pairwise (· < ·) then some l else none
+
+def parseKind (w : String) : Option (Kind × Bool) :=
+  match w.toList with
+  | ['d'] => some (.dfl, false)
+  | ['i'] => some (.ign, false)
+  | ['h', c] => (idx? (String.ofList [c]) 3).map fun h => (.handler h, false)
+  | ['a', c] => (idx? (String.ofList [c]) 3).map fun h => (.handler h, true)
+  | _ => none
+
+def parseOp (s : State) (ws : List String) : Option Op :=
+  match ws with
+  | ["new", l] => do pure (.newEv (← idx? l nLoop))
+  | ["init", e, sg, m] => do
+      let e ← idx? e s.nEv
+      let sg ← parseSigs sg
+      if m == "o" then pure (.init e sg true) else if m == "p" then pure (.init e sg false) else none
+  | ["en", e] => do pure (.enable (← idx? e s.nEv))
+  | ["dis", e] => do pure (.disable (← idx? e s.nEv))
+  | ["del", e] => do pure (.destroy (← idx? e s.nEv))
+  | ["sa", g, k, f, m] => do
+      let g ← idx? g nSig
+      let (k, si) ← parseKind k
+      pure (.setDisp g { kind := k, siginfo := si, flags := (← idx? f 4), mask := (← idx? m 16) })
+  | ["raise", g] => do pure (.raise (← idx? g nSig))
+  | ["pass", l] => do pure (.pass (← idx? l nLoop))
+  | _ => none
+
+/-- canonical form of the callbacks of one pass: split into dispatch groups (a new group starts when the
+signal changes or an event repeats), sort each group by event id -/
+def groupCbs (cbs : List Cb) : List (Nat × List Cb) :=
+  let rec go (acc : List (Nat × List Cb)) (cur : Option (Nat × List Cb)) : List Cb → List (Nat × List Cb)
+    | [] => (match cur with | some c => c :: acc | none => acc).reverse
+    | c :: rest =>
+      match cur with
+      | none => go acc (some (c.sig, [c])) rest
+      | some (g, l) =>
+        if g == c.sig && !(l.any fun x => x.ev == c.ev) then go acc (some (g, l ++ [c])) rest
+        else go ((g, l) :: acc) (some (c.sig, [c])) rest
+  go [] none cbs
+
+def insertCb (c : Cb) : List Cb → List Cb
+  | [] => [c]
+  | x :: xs => if c.ev ≤ x.ev then c :: x :: xs else x :: insertCb c xs
+
+def showCbs (cbs : List Cb) : String :=
+  if cbs.isEmpty then "-" else
+  ";".intercalate ((groupCbs cbs).map fun (g, l) =>
+    toString g ++ ":" ++ ",".intercalate ((l.foldr insertCb []).map fun c =>
+      "e" ++ toString c.ev ++ (if c.enabledInCb then "+" else "-")))
+
+def showCalls (cs : List (Nat × Nat)) : String :=
+  if cs.isEmpty then "-" else ",".intercalate (cs.map fun (h, g) => toString h ++ ":" ++ toString g)
+
+def loopsWithSubs (s : State) : Nat := ((List.range nLoop).filter fun l => !(s.subs l).isEmpty).length
+def ctxCount (s : State) : Nat := ((List.range nSig).filter fun g => (s.ctxs g).isSome).length
+
+def tagsOf (s s' : State) (op : Op) : List String :=
+  let dc := (if ctxCount s' > ctxCount s then ["install"] else []) ++ (if ctxCount s' < ctxCount s then ["restore"] else [])
+    ++ (if loopsWithSubs s' > loopsWithSubs s then ["open-pipe"] else []) ++ (if loopsWithSubs s' < loopsWithSubs s then ["close-pipe"] else [])
+  match op with
+  | .enable e =>
+      let v := s.evs e
+      dc ++ (if !v.alive then ["en-dead"] else if !v.inited then ["en-uninited"] else if v.enabled then ["en-again"] else
+        (if v.sigs.length > 1 then ["en-multi"] else ["en"]) ++
+        (if v.sigs.any fun g => (fdsOf s g).length ≥ 1 && !(fdsOf s g).contains v.loop then ["join-ctx"] else []) ++
+        (if v.sigs.any fun g => !(subsOf s v.loop g).isEmpty then ["join-loop"] else []))
+  | .disable e | .destroy e =>
+      let v := s.evs e
+      dc ++ (if !v.alive then ["dis-dead"] else if !v.enabled then ["dis-idle"] else ["dis"] ++
+        (if v.sigs.any fun g => (fdsOf s g).length ≥ 2 && (subsOf s v.loop g).length == 1 then ["leave-ctx"] else []) ++
+        (if v.sigs.any fun g => (subsOf s v.loop g).length ≥ 2 then ["leave-loop"] else []))
+  | .raise g =>
+      match (s.os g).kind with
+      | .dfl => ["raise-dfl"] | .ign => ["raise-ign"] | .handler _ => ["raise-user"]
+      | .tbox => [match (ctxOf s g).old.kind with | .handler _ => "raise-chain" | _ => "raise-nochain",
+                  "fan" ++ toString (fdsOf s g).length]
+  | .pass l =>
+      let n := s'.cbs.length - s.cbs.length
+      dc ++ (if (s.pipe l).isEmpty then ["pass-empty"] else
+        (if (s.pipe l).length ≥ 2 then ["pass-items>1"] else []) ++
+        (if n = 0 then ["pass-stale"] else if n = 1 then ["pass-cb1"] else ["pass-cbN"]) ++
+        (if (s'.cbs.take n).any (·.oneshot) then ["oneshot-fired"] else []) ++
+        (if (s.pipe l).length > 10 then ["pass-chunk>10"] else []))
+  | .setDisp g _ => if (s.os g).kind = .tbox then ["sa-refused"] else ["sa"]
+  | .init e _ _ => if (s.evs e).inited then ["reinit"] else ["init"]
+  | .newEv _ => []
+
+def stepLine (s : State) (line : String) : State × List String :=
+  let ws := words line
+  match ws with
+  | [] => (s, [])
+  | "case" :: _ => (init, [line.trimAscii.toString])
+  | ["eng", e] => if e == "e" || e == "s" then (s, ["P eng"]) else (s, ["bad-op"])
+  | _ =>
+    match parseOp s ws with
+    | none => (s, ["bad-op"])
+    | some op =>
+      -- `initialize` on an enabled event is outside the property's histories: refused by both sides
+      if !valid s op then (s, ["P refused " ++ showState s]) else
+      let s' := step s op
+      let tags := tagsOf s s' op
+      let b := if tags.isEmpty then [] else ["B " ++ " ".intercalate tags]
+      let body := match op with
+        | .newEv _ => "ret=1"
+        | .init e sg o => "ret=" ++ (if (initEv s e sg o).2 then "1" else "0")
+        | .enable e => "ret=" ++ (if (enable s e).2 then "1" else "0")
+        | .disable e => "ret=" ++ (if (disable s e).2 then "1" else "0")
+        | .destroy e => "ret=" ++ (if (destroy s e).2 then "1" else "0")
+        | .setDisp g d => "ret=" ++ (if (setDisp s g d).2 then "1" else "0")
+        | .raise g =>
+            let o := match (raise s g).2 with | .killed => "killed" | .ignored => "ignored" | .handled => "handled"
+            "raise " ++ o ++ " calls=" ++ showCalls ((s'.calls.take (s'.calls.length - s.calls.length)).reverse)
+        | .pass _ => "pass cbs=" ++ showCbs ((s'.cbs.take (s'.cbs.length - s.cbs.length)).reverse) ++ " thr=ok"
+      (s', b ++ ["P " ++ body ++ " " ++ showState s'])
+
+def main : IO Unit := runDriver init stepLine
